@@ -42,7 +42,17 @@ func (f *Frame) applyCall(c *ssa.CallCommon, fnv Val, args []Val, st *State, pos
 		recv := fnv
 		key := "(" + types.TypeString(c.Value.Type(), nil) + ")." + c.Method.Name()
 		if ct := eng.contracts[key]; ct != nil {
-			return f.applyContract(ct, nil, sig, append([]Val{recv}, args...), nil, st, pos, key)
+			// a pure interface contract only names the method's value; when the dynamic type is known the method itself is
+			// more precise (it reads the current heap)
+			usable := true
+			if ct.Pure && recv.Dyn != nil && len(ct.Ensures) == 0 {
+				if m := eng.prog.LookupMethod(recv.Dyn, c.Method.Pkg(), c.Method.Name()); m != nil && len(m.Blocks) > 0 {
+					usable = false
+				}
+			}
+			if usable {
+				return f.applyContract(ct, nil, sig, append([]Val{recv}, args...), nil, st, pos, key)
+			}
 		}
 		if recv.Dyn != nil {
 			if m := eng.prog.LookupMethod(recv.Dyn, c.Method.Pkg(), c.Method.Name()); m != nil {
@@ -70,6 +80,10 @@ func (f *Frame) applyCall(c *ssa.CallCommon, fnv Val, args []Val, st *State, pos
 	}
 	// callback parameter with a declared meaning?
 	if ct := eng.callbackContract(f, c.Value); ct != nil {
+		if ct.Pure && len(ct.Ensures) == 0 && len(ct.Requires) == 0 && sig.Results().Len() == 1 {
+			// a pure callback: one (unknown) function of the function value and the arguments
+			return f.pureCallbackApp(callbackKey(f.fn, c.Value), fnv.T, args, sig)
+		}
 		return f.applyContract(ct, nil, sig, args, nil, st, pos, ct.Name)
 	}
 	// a function value of a type declared outside the repository (context.CancelFunc, ...) cannot
@@ -199,6 +213,22 @@ func modAllowed(k string, allowed map[string]bool) bool {
 	return false
 }
 
+// pureCallbackApp: the value of a pure callback (assume-call ... pure) applied to args.
+func (f *Frame) pureCallbackApp(key string, fnv Term, args []Val, sig *types.Signature) Val {
+	un := f.un
+	rt := sig.Results().At(0).Type()
+	rs := un.u.SortOf(rt)
+	ts := []Term{fnv}
+	as := []Sort{fnv.Sort}
+	for _, a := range args {
+		ts = append(ts, a.T)
+		as = append(as, a.T.Sort)
+	}
+	name := "cbv_" + sanitize(key)
+	un.eng.declareUF(name, as, rs)
+	return Val{T: mk(rs, "uf_"+name, ts...), Go: rt}
+}
+
 func (f *Frame) onStack(fn *ssa.Function) bool {
 	for fr := f; fr != nil; fr = fr.parent {
 		if fr.fn == fn {
@@ -211,7 +241,7 @@ func (f *Frame) onStack(fn *ssa.Function) bool {
 func (f *Frame) applyFunction(fn *ssa.Function, bind []Val, args []Val, st *State, pos token.Pos) Val {
 	un := f.un
 	eng := un.eng
-	if ct := eng.contractFor(fn); ct != nil && !(f.parent == nil && fn == f.fn && false) {
+	if ct := eng.contractFor(fn); ct != nil && !(ct.Inline && len(fn.Blocks) > 0 && f.depth < maxInlineDepth && !f.onStack(fn)) {
 		return f.applyContract(ct, fn, fn.Signature, args, bind, st, pos, fn.String())
 	}
 	if r, ok := eng.special(f, fn, args, st, pos); ok {
@@ -682,6 +712,10 @@ func (f *Frame) applyMods(mods []string, env map[string]Val, st *State, old *Sta
 		s, ok := un.heapSort[me.heap]
 		if !ok {
 			s, ok = un.eng.heapSortHint[me.heap]
+			if !ok && strings.HasPrefix(me.heap, "K_") {
+				s, ok = ArrSort(SInt, SInt), true // lock-state heap not touched in this unit so far
+				un.heapInit(me.heap, s)
+			}
 			if !ok {
 				f.fail("modifies: unknown heap %s", me.heap)
 			}
@@ -767,6 +801,14 @@ func (f *Frame) modTypeOf(e Expr, env map[string]Val) types.Type {
 // exceptItem recognises `except(item)` in a modifies list.
 func exceptItem(m string) (string, bool) {
 	m = strings.TrimSpace(m)
+	if strings.HasPrefix(m, "@@") {
+		if j := strings.Index(m[2:], "@@"); j >= 0 {
+			if x, ok := exceptItem(m[2+j+2:]); ok {
+				return m[:2+j+2] + x, true
+			}
+			return "", false
+		}
+	}
 	if strings.HasPrefix(m, "except(") && strings.HasSuffix(m, ")") {
 		return m[7 : len(m)-1], true
 	}
@@ -783,6 +825,14 @@ type modEntry struct {
 func (f *Frame) resolveMod(m string, env map[string]Val, st *State) []modEntry {
 	un := f.un
 	m = strings.TrimSpace(m)
+	if strings.HasPrefix(m, "@@") {
+		if j := strings.Index(m[2:], "@@"); j >= 0 {
+			saved := f.clausePkg
+			f.clausePkg = m[2 : 2+j]
+			defer func() { f.clausePkg = saved }()
+			m = m[2+j+2:]
+		}
+	}
 	switch {
 	case strings.HasPrefix(m, "heap(") && strings.HasSuffix(m, ")"):
 		return []modEntry{{heap: m[5 : len(m)-1]}}
@@ -809,6 +859,12 @@ func (f *Frame) resolveMod(m string, env map[string]Val, st *State) []modEntry {
 		e, err := ParseExpr(m[8 : len(m)-1])
 		if err != nil {
 			f.fail("modifies %s: %v", m, err)
+		}
+		// newrows(T): rows of []T allocated by the callee (T a type name)
+		if et := f.modTypeOf(e, env); et != nil {
+			hn := un.elemHeap(et)
+			un.heapInit(hn, ArrSort(SInt, ArrSort(SInt, un.u.SortOf(et))))
+			return []modEntry{{heap: hn, rows: true}}
 		}
 		cv := f.eval(e, &evalCtx{env: env, cur: st, old: st})
 		sl, ok := cv.Go.Underlying().(*types.Slice)
